@@ -257,16 +257,25 @@ def check_pc(ctx, table):
                 for s2 in cur.body:
                     if isinstance(s2, ast.Assign) and isinstance(s2.targets[0], ast.Name) and s2.targets[0].id == cond_name:
                         arms[k] = s2.value
-                    if isinstance(s2, ast.Assign) and isinstance(s2.targets[0], ast.Name) and s2.targets[0].id in ("a", "b"):
+                    if isinstance(s2, ast.Assign) and isinstance(s2.targets[0], ast.Name) and s2.targets[0].id != cond_name:
                         arms.setdefault("_" + k, {})[s2.targets[0].id] = s2.value
             cur = cur.orelse[0] if len(cur.orelse) == 1 else None
+    def call_shape(k):
+        """`instr.check_condition(<operand values>)` with the locals passed replaced by positional names a, b"""
+        v = arms.get(k)
+        if isinstance(v, ast.Call) and all(isinstance(x, ast.Name) for x in v.args) and not v.keywords:
+            return A.norm(v.func) + "(" + ",".join("ab"[i] for i in range(len(v.args))) + ")", [x.id for x in v.args]
+        return A.norm(v if v is not None else ast.Constant(value=None)), []
+
+    u_shape, u_args = call_shape("BranchUnaryInstruction")
+    b_shape, b_args = call_shape("BranchBinaryInstruction")
     sig = {
         "jmp": A.norm(arms.get("JmpInstruction", ast.Constant(value=None))),
-        "unary": A.norm(arms.get("BranchUnaryInstruction", ast.Constant(value=None))),
-        "binary": A.norm(arms.get("BranchBinaryInstruction", ast.Constant(value=None))),
-        "unary_a": canon(ctx, ex, fn, arms.get("_BranchUnaryInstruction", {}).get("a"), instrp, "BranchUnaryInstruction"),
-        "binary_a": canon(ctx, ex, fn, arms.get("_BranchBinaryInstruction", {}).get("a"), instrp, "BranchBinaryInstruction"),
-        "binary_b": canon(ctx, ex, fn, arms.get("_BranchBinaryInstruction", {}).get("b"), instrp, "BranchBinaryInstruction"),
+        "unary": u_shape,
+        "binary": b_shape,
+        "unary_a": canon(ctx, ex, fn, arms.get("_BranchUnaryInstruction", {}).get(u_args[0]) if len(u_args) > 0 else None, instrp, "BranchUnaryInstruction"),
+        "binary_a": canon(ctx, ex, fn, arms.get("_BranchBinaryInstruction", {}).get(b_args[0]) if len(b_args) > 0 else None, instrp, "BranchBinaryInstruction"),
+        "binary_b": canon(ctx, ex, fn, arms.get("_BranchBinaryInstruction", {}).get(b_args[1]) if len(b_args) > 1 else None, instrp, "BranchBinaryInstruction"),
     }
     exp = {"jmp": "True", "unary": f"{instrp}.check_condition(a)", "binary": f"{instrp}.check_condition(a,b)",
            "unary_a": "REG[instr.reg]", "binary_a": "REG[instr.reg0]", "binary_b": "REG[instr.reg1]"}
@@ -407,13 +416,46 @@ def check_signatures(ctx, table):
         ctx.check("C04.S", f"{name}:shape", got == exp, f"Executor.{name} is `{got}`; reference `{exp}`", repo.loc(ex.module, fn), sample={"helper": name, "shape": got})
 
 
+def _key_roles(f, pk):
+    """(address local, index local, array local) of an Arrays accessor: `a, i = self._extract_key(<key>)`, `arr = self._get_array(a)`"""
+    addr_v = idx_v = arr_v = None
+    for n in ast.walk(f):
+        if isinstance(n, ast.Assign) and isinstance(n.targets[0], ast.Tuple) and len(n.targets[0].elts) == 2 and A.norm(n.value) == f"self._extract_key({pk})" \
+                and all(isinstance(x, ast.Name) for x in n.targets[0].elts):
+            addr_v, idx_v = n.targets[0].elts[0].id, n.targets[0].elts[1].id
+    if addr_v is not None:
+        for n in ast.walk(f):
+            if isinstance(n, ast.Assign) and isinstance(n.targets[0], ast.Name) and A.norm(n.value) == f"self._get_array({addr_v})":
+                arr_v = n.targets[0].id
+    return addr_v, idx_v, arr_v
+
+
 def helper_shape(ctx, ex, name, fn) -> str:
     """normalised body of the small state accessors"""
     body = A.strip_docstring(fn.body)
     defs = A.single_defs(fn)
     if name == "_expand_array_part":
-        # address source, entry index source, slice order
+        # address source, entry index source, slice order; locals in alpha form (L0, L1, ... by first binding) so that their names do not matter
+        fn = A.alpha(fn)
+        defs = A.single_defs(fn)
         p = A.param_names(fn)[2]
+        rets0 = A.returns(fn)
+        addr_local = rets0[0].value.elts[0].id if rets0 and isinstance(rets0[0].value, ast.Tuple) and isinstance(rets0[0].value.elts[0], ast.Name) else None
+        # name the locals by their role: returned pair = (address, index); the loop over the two bounds binds `elem` and fills `bounds`
+        roles = {}
+        if rets0 and isinstance(rets0[0].value, ast.Tuple) and len(rets0[0].value.elts) == 2 and all(isinstance(x, ast.Name) for x in rets0[0].value.elts):
+            roles[rets0[0].value.elts[0].id] = "address"
+            roles[rets0[0].value.elts[1].id] = "index"
+        for n in ast.walk(fn):
+            if isinstance(n, ast.For) and isinstance(n.iter, ast.List) and isinstance(n.target, ast.Name):
+                roles[n.target.id] = "elem"
+                for c in ast.walk(n):
+                    if isinstance(c, ast.Call) and isinstance(c.func, ast.Attribute) and c.func.attr == "append" and isinstance(c.func.value, ast.Name):
+                        roles.setdefault(c.func.value.id, "bounds")
+        for n in ast.walk(fn):
+            if isinstance(n, ast.Name) and n.id in roles:
+                n.id = roles[n.id]
+        defs = A.single_defs(fn)
         addr = A.norm(defs.get("address", ast.Constant(value=None)))
         order = None
         for n in ast.walk(fn):
@@ -731,9 +773,9 @@ def check_memory_primitives(ctx):
         ctx.fn("Arrays.__setitem__")
         d = A.single_defs(f)
         pk, pv = A.param_names(f)[1:3]
-        mn, mx = _count_stores(f, lambda n: isinstance(n, ast.Assign) and isinstance(n.targets[0], ast.Subscript) and A.norm(n.targets[0]) == "array[index]" and A.norm(n.value) == pv)
-        src_ok = A.norm(d.get("array", ast.Constant(value=0))) == "self._get_array(address)" and any(
-            isinstance(n, ast.Assign) and isinstance(n.targets[0], ast.Tuple) and A.norm(n.targets[0]) == "(address,index)" and A.norm(n.value) == f"self._extract_key({pk})" for n in ast.walk(f))
+        addr_v, idx_v, arr_v = _key_roles(f, pk)
+        mn, mx = _count_stores(f, lambda n: isinstance(n, ast.Assign) and isinstance(n.targets[0], ast.Subscript) and A.norm(n.targets[0]) == f"{arr_v}[{idx_v}]" and A.norm(n.value) == pv)
+        src_ok = arr_v is not None
         ctx.check("C04.M", "Arrays.__setitem__:stores-value-at-key", (mn, mx) == (1, 1) and src_ok,
                   f"Arrays.__setitem__ does not store the value exactly once at [address, index] of its key (stores per path: {mn}..{mx}, key/array source ok: {src_ok})", arrays.loc(f), sample={"min": mn, "max": mx})
     f = arrays.methods.get("__getitem__")
@@ -741,12 +783,13 @@ def check_memory_primitives(ctx):
         ctx.fn("Arrays.__getitem__")
         d = A.single_defs(f)
         rets = [A.norm(A.expand(r.value, d)) for r in A.returns(f) if r.value is not None and not (isinstance(r.value, ast.Constant) and r.value.value is None)]
-        ok = rets == ["self._get_array(self._extract_key(key)[0])[self._extract_key(key)[1]]"] or rets == ["self._get_array(address)[index]"]
-        # simpler structural form: value = array[index]; return value, array from _get_array(address)
-        if not ok:
-            vals = [n for n in ast.walk(f) if isinstance(n, ast.Assign) and A.norm(n.targets[0]) == "value" and A.norm(n.value) == "array[index]"]
-            arr = [n for n in ast.walk(f) if isinstance(n, ast.Assign) and A.norm(n.targets[0]) == "array" and A.norm(n.value) == "self._get_array(address)"]
-            ok = len(vals) == 1 and len(arr) == 1 and any(isinstance(r.value, ast.Name) and r.value.id == "value" for r in A.returns(f))
+        pk = A.param_names(f)[1]
+        addr_v, idx_v, arr_v = _key_roles(f, pk)
+        ok = rets == [f"self._get_array(self._extract_key({pk})[0])[self._extract_key({pk})[1]]"] or rets == [f"self._get_array({addr_v})[{idx_v}]"]
+        # simpler structural form: <v> = <array>[<index>]; return <v>, array from _get_array(<address>)
+        if not ok and arr_v is not None:
+            vals = [n for n in ast.walk(f) if isinstance(n, ast.Assign) and isinstance(n.targets[0], ast.Name) and A.norm(n.value) == f"{arr_v}[{idx_v}]"]
+            ok = len(vals) == 1 and any(isinstance(r.value, ast.Name) and r.value.id == vals[0].targets[0].id for r in A.returns(f))
         ctx.check("C04.M", "Arrays.__getitem__:reads-value-at-key", ok, "Arrays.__getitem__ does not return array[index] of the array at the key's address", arrays.loc(f))
     f = arrays.methods.get("_get_array")
     if f is not None:
@@ -763,7 +806,13 @@ def check_memory_primitives(ctx):
     f = sh.methods.get("set_register")
     if f is not None:
         pv = A.param_names(f)[2]
-        mn, mx = _count_stores(f, lambda n: isinstance(n, ast.Assign) and A.norm(n.targets[0]) == "self._registers[reg.name][reg.index]" and A.norm(n.value) == pv)
+        pr = A.param_names(f)[1]
+        # the register object: the parameter itself or a local that is the parameter / parse_register(parameter) on every path
+        regs = {pr}
+        for k_, vs_ in A.assigned_names(f).items():
+            if vs_ and all(v_ is not None and A.norm(v_) in (pr, f"parse_register({pr})") for v_ in vs_):
+                regs.add(k_)
+        mn, mx = _count_stores(f, lambda n: isinstance(n, ast.Assign) and any(A.norm(n.targets[0]) == f"self._registers[{r_}.name][{r_}.index]" for r_ in regs) and A.norm(n.value) == pv)
         ctx.check("C04.M", "SharedMemory.set_register:stores-value", (mn, mx) == (1, 1), f"SharedMemory.set_register stores the value {mn}..{mx} times per path", sh.loc(f))
     f = sh.methods.get("set_array_part")
     if f is not None:
